@@ -88,6 +88,7 @@ def init_coq(sd):
     return '(%s %d %s %s)' % (fn, sd.get('max_cmdt', 1), us(sd.get('cmdt_iv')), us(sd.get('bam_iv')))
 
 
+SKIPPED = [0]
 HEADER = ('From J1939 Require Import Base CodecGlue Model21 Replay21 Model22 Replay22.\nOpen Scope Z_scope.\n'
           'Set Warnings "-abstract-large-number".\n')
 
@@ -100,6 +101,14 @@ def correspond(work, runs, shard=40, tag='c21'):
             if j >= len(res.oplog) or not res.oplog[j]:
                 continue
             fd = sd.get('dll', 'j1939-21') != 'j1939-21'
+            if fd:
+                try:
+                    log_coq(res.oplog[j], fd)
+                except ValueError:
+                    # operations of the controller application on an FD stack are not part of the FD replay machine:
+                    # such a trace is judged by the oracle only
+                    SKIPPED[0] += 1
+                    continue
             cases.append((k, j, init_coq(sd), res.oplog[j], D.digest(res.outs[j]), fd))
     files = []
     for s in range(0, len(cases), shard):
